@@ -228,6 +228,16 @@ func (p *Program) pkgByName(name string) *types.Package {
 
 // find the ssa.Function for a contract key in a package
 func (p *Program) findFunc(pkgPath, key string) (*ssa.Function, error) {
+	if i := strings.LastIndex(key, "$"); i > 0 {
+		parent, err := p.findFunc(pkgPath, key[:i])
+		if err != nil {
+			return nil, err
+		}
+		if a := findAnon(parent, key[i:]); a != nil {
+			return a, nil
+		}
+		return nil, fmt.Errorf("%s: %s has no function literal %s", pkgPath, key[:i], key[i:])
+	}
 	pk := p.pkgs[pkgPath]
 	if pk == nil || pk.Types == nil {
 		return nil, fmt.Errorf("package %s not loaded", pkgPath)
